@@ -48,11 +48,11 @@ Definition chrome : spec :=
   mkSpec false [XOther; XEms; XTicket; XOther; XPskModes; XOther] [V13; V12] [4865; 4866; 4867; 49195; 49199] [29; 23; 24] [29].
 Definition p360 : spec := mkSpec false [XOther; XTicket; XOther] [V12; V11; V10] [49195; 49199; 47] [23; 24; 25] [].
 Definition golang : spec := mkSpec true [] [V13; V12] [4865; 4866; 4867; 49195; 49199] [4588; 29; 23; 24; 25] [4588; 29].
-Definition srv12 : server := mkServer 7 [V12] [49195; 49199; 47] [4588; 29; 23; 24; 25] 5000000 [1; 2].
-Definition srv13 : server := mkServer 7 [V13] [49195; 49199; 47] [4588; 29; 23; 24; 25] 5000000 [1; 2].
-Definition srv13hrr : server := mkServer 7 [V13] [49195; 49199; 47] [24] 5000000 [1; 2].
+Definition srv12 : server := mkServer 7 [V12] [49195; 49199; 47] [4588; 29; 23; 24; 25] 5000000 [1; 2; 3; 4; 5; 6].
+Definition srv13 : server := mkServer 7 [V13] [49195; 49199; 47] [4588; 29; 23; 24; 25] 5000000 [1; 2; 3; 4; 5; 6].
+Definition srv13hrr : server := mkServer 7 [V13] [49195; 49199; 47] [24] 5000000 [1; 2; 3; 4; 5; 6].
 Definition offer_code_ex (o : obs) : N := match o_offer o with None => 0 | Some (ViaTicket, _) => 1 | Some (ViaPsk, _) => 2 end.
-Definition at_ (sp : spec) (sv : server) (name now suite : N) : conn := mkConn sp name sv now true false suite 120.
+Definition at_ (sp : spec) (sv : server) (name now suite : N) : conn := mkConn sp name 100 sv now true false suite 120.
 
 Theorem C19_resume_hrr_refuted : ~ C19_resume_hrr_full.
 Proof.
@@ -69,7 +69,7 @@ Proof.
   assert (H6 : mem (c_suite c1) (sp_suites (c_spec c1)) = true) by reflexivity.
   destruct (H [] c1 c2 V13 H1 H2 H3 H4 H5 H6 (fun _ => I)) as [s [L R]].
   vm_compute in L. inversion L; subst s. clear L.
-  assert (U : unexpired (mkSession V13 4865 false 1000 605800 true 5000000 [1; 2] 1 (mkTicket 7 V13 4865 false 1000 120)) (c_now c2)).
+  assert (U : unexpired (mkSession V13 4865 false 1000 605800 true 5000000 [1; 2; 3; 4; 5; 6] 1 (mkTicket 7 V13 4865 false 1000 120)) (c_now c2)).
   { split; [|split]; apply N.leb_le; reflexivity. }
   destruct (R U) as [Rs _]. vm_compute in Rs. discriminate.
 Qed.
@@ -115,10 +115,22 @@ Proof. exact binder_len_invariant. Qed.
 Print Assumptions C19_binder_len_invariant.
 
 (* ---- never for a different server name ---- *)
-(* in every history from an empty cache every offered session was stored by a connection to the same name *)
+(* c_name is the real key function clientSessionCacheKey: Config.ServerName exactly as configured when non-empty
+   (DNS name, name with a trailing dot, IPv4/IPv6 literal: no normalisation), else the remote address.
+   In every history from an empty cache every offered session was stored by a connection with the same key *)
 Theorem C19_no_cross_name : forall h, offers_ok same_name h (run [] h).
 Proof. intros h. apply (no_cross_name_run h []). constructor. Qed.
 Print Assumptions C19_no_cross_name.
+
+(* ... and two connections with different non-empty ServerNames never have the same key, whatever their remote
+   addresses; a connection without ServerName is keyed by its remote address *)
+Theorem C19_key_separates_names : forall c1 c2,
+  c_sname c1 <> 0 -> c_sname c2 <> 0 -> c_sname c1 <> c_sname c2 -> c_name c1 <> c_name c2.
+Proof. exact key_separates_names. Qed.
+Print Assumptions C19_key_separates_names.
+
+Theorem C19_key_function : forall c, c_name c = if c_sname c =? 0 then c_addr c else c_sname c.
+Proof. reflexivity. Qed.
 
 (* and a connection reads and writes only its own cache key *)
 Theorem C19_cache_key_only : forall ca c k s,
@@ -163,5 +175,12 @@ Proof.
   split. { right. reflexivity. }
   intros s L. vm_compute in L. inversion L; subst s. split; [|split]; apply N.leb_le; reflexivity.
 Qed.
+(* IP-literal names 4 / 5 reaching the same address 100; then no ServerName at all (InsecureSkipVerify), key = address *)
+Example C19_ex_ip_names : map resumed (run [] [at_ golang srv13 4 1000 4865; at_ golang srv13 5 2000 4865; at_ golang srv13 4 3000 4865]) = [false; false; true].
+Proof. vm_compute. reflexivity. Qed.
+Example C19_ex_no_name :
+  let c n t := mkConn golang n 100 srv13 t true true 4865 120 in
+  map resumed (run [] [c 0 1000; c 4 2000; c 0 3000; c 4 4000]) = [false; false; true; true].
+Proof. vm_compute. reflexivity. Qed.
 Example C19_ex_binder : psk_ext_len [mkIdent [1; 2; 3] 5] [placeholder 4866] = 4 + 2 + (2 + 3 + 4) + 2 + 49.
 Proof. vm_compute. reflexivity. Qed.
